@@ -735,6 +735,112 @@ def r812(ctx, rid="R-8.12"):
         raise AnalysisError(f"{rid}: only {n} calls of write_toml found in REPEX_state")
 
 
+def r813(ctx, rid="R-8.13"):
+    """The in-flight record pairs ensembles and paths position by position. pick_lock() re-issues
+    `zip(enss0, trajs0)` of a saved record, so every `self.locked.append((E, P))` must build P from
+    the very sequence that is paired with E when the job is assembled: P is a comprehension over T
+    with `zip(E, T)` building the job, or P is the Y of the `zip(X, Y)` loop that appends E's
+    elements. A list collected in pick order (path picked first, partner second) differs from the
+    ensemble order (-1, 0) when the swap was drawn from [0+]."""
+    tree = ctx.tree
+    cls = tree.cls(REPEX, "REPEX_state")
+    n = 0
+    methods_ = {x.name: x for x in cls.body if isinstance(x, FUNC)}
+    for f in [x for x in cls.body if isinstance(x, FUNC)]:
+        fl = None
+        for c in walk_local(f):
+            if not (isinstance(c, ast.Call) and isinstance(c.func, ast.Attribute) and c.func.attr == "append" and path_of(c.func.value) == "self.locked" and c.args):
+                continue
+            rec = c.args[0]
+            if isinstance(rec, ast.Name):
+                fl = fl or flow_of(f)
+                rec, _ = deref(fl, rec, fl.cfg.node_of(c))
+            if not (isinstance(rec, ast.Tuple) and len(rec.elts) == 2):
+                raise AnalysisError(f"{rid}: the record appended to self.locked in {f.name} is not a pair (cannot decide)")
+            n += 1
+            e_, p_ = rec.elts
+
+            def _elt(x):
+                # entry[0] of a local pair is that pair's element
+                if isinstance(x, ast.Subscript) and isinstance(x.value, ast.Name) and isinstance(x.slice, ast.Constant) and isinstance(x.slice.value, int):
+                    fl_ = flow_of(f)
+                    t_, _ = deref(fl_, x.value, fl_.cfg.node_of(c))
+                    if isinstance(t_, ast.Tuple) and -len(t_.elts) <= x.slice.value < len(t_.elts):
+                        return t_.elts[x.slice.value]
+                return x
+
+            e_, p_ = _elt(e_), _elt(p_)
+            while isinstance(e_, ast.Call) and last_name(e_) in ("list", "tuple") and e_.args:
+                e_ = e_.args[0]
+            while isinstance(p_, ast.Call) and last_name(p_) in ("list", "tuple") and p_.args:
+                p_ = p_.args[0]
+            if not (isinstance(e_, ast.Name) and isinstance(p_, ast.Name)):
+                raise AnalysisError(f"{rid}: the record appended in {f.name} is not (names of) an ensemble list and a path list (cannot decide)")
+            zips = [z for z in walk_local(f) if isinstance(z, ast.Call) and last_name(z) == "zip" and len(z.args) == 2 and all(isinstance(a, ast.Name) for a in z.args)]
+            # the job may be assembled by a helper that is handed the two sequences: zip(p, q) over its parameters
+            for hc in walk_local(f):
+                if isinstance(hc, ast.Call) and is_self_attr(hc.func) and hc.func.attr in methods_ and hc.func.attr != f.name:
+                    g = methods_[hc.func.attr]
+                    gp = [a.arg for a in g.args.args][1:]
+                    for z in walk_local(g):
+                        if isinstance(z, ast.Call) and last_name(z) == "zip" and len(z.args) == 2 and all(isinstance(a, ast.Name) and a.id in gp for a in z.args):
+                            i0, i1 = gp.index(z.args[0].id), gp.index(z.args[1].id)
+                            if max(i0, i1) < len(hc.args) and isinstance(hc.args[i0], ast.Name) and isinstance(hc.args[i1], ast.Name):
+                                zips.append(ast.Call(func=ast.Name(id="zip", ctx=ast.Load()), args=[hc.args[i0], hc.args[i1]], keywords=[]))
+            stores = [st for st in walk_local(f) if isinstance(st, ast.Assign) and any(isinstance(t, ast.Name) and t.id == p_.id for t in st.targets)]
+            appends = [a for a in walk_local(f) if isinstance(a, ast.Call) and isinstance(a.func, ast.Attribute) and a.func.attr in ("append", "extend", "insert") and isinstance(a.func.value, ast.Name) and a.func.value.id == p_.id]
+            svals = []
+            for st in stores:
+                v_ = st.value
+                while isinstance(v_, ast.Call) and last_name(v_) in ("list", "tuple") and len(v_.args) == 1:
+                    v_ = v_.args[0]
+                svals.append(v_)
+            ok = None
+            why = ""
+            # (a) P = [g(i) for i in T] (single store, never appended to), zip(E, T) builds the job
+            if len(stores) == 1 and not appends and isinstance(svals[0], (ast.ListComp, ast.GeneratorExp)) and len(svals[0].generators) == 1 and isinstance(svals[0].generators[0].iter, ast.Name) and not svals[0].generators[0].ifs:
+                T = svals[0].generators[0].iter.id
+                if any(z.args[0].id == e_.id and z.args[1].id == T for z in zips):
+                    ok, why = True, f"{p_.id} is derived element by element from `{T}`, which is zipped with `{e_.id}` when the job is assembled"
+                else:
+                    ok, why = False, f"{p_.id} is derived from `{T}`, which is not the sequence zipped with `{e_.id}`"
+            # (b) P is the Y of the zip(X, Y) loop in which E's elements are appended
+            elif not stores and not appends:
+                for z in zips:
+                    L = getattr(z, "_parent", None)
+                    if z.args[1].id == p_.id and isinstance(L, ast.For) and any(isinstance(a, ast.Call) and isinstance(a.func, ast.Attribute) and a.func.attr == "append" and isinstance(a.func.value, ast.Name) and a.func.value.id == e_.id for a in ast.walk(L)):
+                        ok, why = True, f"{p_.id} is the sequence the loop over zip({z.args[0].id}, {p_.id}) pairs with the ensembles it appends to `{e_.id}`"
+                if ok is None:
+                    ok, why = False, f"{p_.id} is not paired with `{e_.id}` by any zip of {f.name}"
+            elif len(stores) == 1 and not appends and isinstance(svals[0], (ast.ListComp, ast.GeneratorExp)):
+                ok, why = False, f"{p_.id} is derived from `{short(svals[0].generators[0].iter, 30)}`, a rearranged / filtered sequence, not from the sequence zipped with `{e_.id}`"
+            elif appends or len(stores) > 1:
+                # collected piecewise: must happen inside a loop over zip(E-source, ...) together with E
+                inzip = [a for a in appends if any(isinstance(L, ast.For) and isinstance(L.iter, ast.Call) and last_name(L.iter) == "zip" for L in _enclosing_loops(a))]
+                if appends and len(inzip) == len(appends) and len(stores) <= 1:
+                    ok, why = True, f"{p_.id} is filled in the loop that also fills `{e_.id}`"
+                else:
+                    ok, why = False, f"`{p_.id}` is collected piece by piece in the order the paths were picked ({len(stores)} store(s), {len(appends)} append(s)), not from the sequence zipped with `{e_.id}`"
+            if ok is None:
+                raise AnalysisError(f"{rid}: how `{p_.id}` of the record appended in {f.name} is built is not one of the modelled forms (cannot decide)")
+            if ok:
+                ctx.ok(rid, c, f"{f.name}: {why}")
+            else:
+                ctx.bad(rid, c, f"REPEX_state.{f.name} records the in-flight job as ({short(rec.elts[0], 20)}, {p_.id}) but {why}: for a [0-]<->[0+] swap drawn from [0+] the saved record lists (plus path, minus path) against ensembles (-1, 0), and pick_lock() re-issues the job after a restart with the two paths attached to the wrong ensembles", construct=f"{f.name}: in-flight record not paired position by position")
+    if n < 2:
+        raise AnalysisError(f"{rid}: only {n} in-flight records appended in REPEX_state (expected pick and pick_lock)")
+
+
+def _enclosing_loops(node):
+    out = []
+    p_ = getattr(node, "_parent", None)
+    while p_ is not None and not isinstance(p_, FUNC):
+        if isinstance(p_, (ast.For, ast.While)):
+            out.append(p_)
+        p_ = getattr(p_, "_parent", None)
+    return out
+
+
 def run(ctx):
     ctx.rule("R-8.7", "one ensemble-index unit per store: self.locked entries offset-removed, restart.toml's locked and lock()/swap() indices in state-matrix rows", floor=4)
     ctx.rule("R-8.8", "the commit is final: nothing restart.toml serialises is modified after write_toml within the step", floor=1)
@@ -756,6 +862,8 @@ def run(ctx):
     ctx.attempt(r89, ctx)
     ctx.rule("R-8.12", "restart.toml is written only from a re-sorted slot order (no write after a pick / swap / insertion without sort_trajstate in between)", floor=2)
     ctx.attempt(r812, ctx)
+    ctx.rule("R-8.13", "the in-flight record that restart.toml saves pairs ensembles and path numbers position by position (built from the sequence zipped with the ensembles when the job is assembled)", floor=2)
+    ctx.attempt(r813, ctx)
     ctx.rule("R-8.11", "every completed step is committed: each normal path through treat_output writes restart.toml", floor=1)
     from .shared import commit_every_step
     ctx.attempt(commit_every_step, ctx, "R-8.11")
@@ -766,6 +874,9 @@ def run(ctx):
 
 
 VARIANTS = [
+    B("c08-record-in-pick-order", REPEX, "        pat_nums = [str(i.path_number) for i in inp_trajs]\n", "        pat_nums = [str(traj.path_number)]\n        if len(inp_trajs) > 1:\n            pat_nums.append(str(other_traj.path_number))\n", "R-8.13", why="seeded C08_j"),
+    B("c08-record-paths-reversed-source", REPEX, "        pat_nums = [str(i.path_number) for i in inp_trajs]\n", "        pat_nums = [str(i.path_number) for i in reversed(inp_trajs)]\n", "R-8.13", control=True, why="seeded C08_j (same effect: record not in ensemble order)"),
+    K("c08-keep-record-generator", REPEX, "        pat_nums = [str(i.path_number) for i in inp_trajs]\n", "        pat_nums = list(str(t.path_number) for t in inp_trajs)\n"),
     B("c08-restart-written-after-pick", REPEX, "        for key in [\"moves\", \"trial_len\", \"trial_op\", \"generated\"]:\n            md_items[key] = []\n\n        return md_items", "        for key in [\"moves\", \"trial_len\", \"trial_op\", \"generated\"]:\n            md_items[key] = []\n        if self.toinitiate == -1:\n            self.write_toml()\n\n        return md_items", "R-8.12", control=True, why="seeded C08_i"),
     B("c08-commit-only-when-printing", REPEX, "            self.print_shooted(md_items, pn_news)\n        # save for possible restart\n        self.write_toml()", "            self.print_shooted(md_items, pn_news)\n            # save for possible restart\n            self.write_toml()", "R-8.11", control=True, why="seeded C06_g"),
     B("c08-active-stored-conditionally", REPEX, '        self.config["current"]["active"] = self.live_paths()\n        locked_ep = []', '        if self.locked:\n            self.config["current"]["active"] = self.live_paths()\n        locked_ep = []', "R-8.10", control=True),
